@@ -99,7 +99,7 @@ func profileByName(name string) Profile {
 		p.W["badname"] = 1
 		p.MaxWrite = 30000
 	case "unstablemix": // C07: three stability levels on several files, COMMITs, metadata operations
-		p.W = map[string]int{"write": 40, "commit": 10, "create": 6, "truncate": 5, "read": 6, "rename": 3, "remove": 3, "mkdir": 2, "getattr": 2, "bigwrite": 1, "abortcommit": 8, "maxwrite": 5, "hugesymlink": 2}
+		p.W = map[string]int{"write": 40, "commit": 10, "create": 6, "truncate": 5, "read": 6, "rename": 3, "remove": 3, "mkdir": 2, "getattr": 2, "bigwrite": 1, "abortcommit": 8, "maxwrite": 5, "hugesymlink": 2, "holefill": 5}
 		p.Steer["unstablefirst"] = true
 		p.MaxWrite = 12000
 	case "lockorder": // C06: children with smaller and larger numbers than their parents, all multi-lock paths
@@ -124,6 +124,7 @@ func profileByName(name string) Profile {
 	case "toobig": // C09: requests that are refused only when the journal turns them down
 		p.W["hugesymlink"] = 10
 		p.W["bigwrite"] = 4
+		p.W["maxwrite"] = 14
 		p.W["symlink"] = 5
 		p.W["remove"] = 8
 		p.W["restart"] = 2
